@@ -66,7 +66,9 @@ def ensure_files():
     layf, _ = wg.bead_layout(I1, stream=3, few=True)
     wg.write_fcs(os.path.join(d, 'beads_few.fcs'), layf)
     for i in range(5):
-        wg.write_fcs(os.path.join(d, 'cell_%d.fcs' % i), wg.cell_layout(I1, stream=10 + i, container='int' if i != 3 else 'float', n=800 + 40 * i))
+        # (the second file records its first fluorescence channel with 256 channels only: its histogram has 256 bins, whatever the other rows have)
+        wg.write_fcs(os.path.join(d, 'cell_%d.fcs' % i), wg.cell_layout(I1, stream=10 + i, container='int' if i != 3 else 'float', n=800 + 40 * i,
+                                                                         res=[256, 1024] if i == 1 else None))
     wg.write_fcs(os.path.join(d, 'cell_few.fcs'), wg.cell_layout(I1, stream=20, n=300))
     wg.write_fcs(os.path.join(d, 'cell_lin.fcs'), wg.cell_layout(I1, stream=21, linear_fl=True))
     wg.write_fcs(os.path.join(d, 'cell_volt.fcs'), wg.cell_layout(I1, stream=22, voltage_shift=7))
@@ -305,8 +307,22 @@ def single_fp(pos, variant):
         s = samples['S%d' % (pos + 1)]
         if isinstance(s, Exception):
             raise RuntimeError('healthy reference row failed: %s' % s)
-        _SINGLE[key] = (fp(s), st.loc['S%d' % (pos + 1)].to_dict())
+        _SINGLE[key] = (fp(s), st.loc['S%d' % (pos + 1)].to_dict(), hist_rows(hist, 'S%d' % (pos + 1)))
     return _SINGLE[key]
+
+
+def hist_rows(hist, sid):
+    """the histogram rows of one sample: [(row labels after the sample id, values without the table-wide NaN padding)]"""
+    out = []
+    if sid not in set(hist.index.get_level_values(0)):
+        return out
+    sub = hist.loc[sid]
+    for lab, row in zip(sub.index.tolist(), sub.values.tolist()):
+        vals = list(row)
+        while vals and vals[-1] != vals[-1]:
+            vals.pop()
+        out.append((lab, vals))
+    return out
 
 
 def fresh_flow(rows, st=None):
@@ -491,7 +507,7 @@ def run_case(c):
                     ok = False
                     continue
                 # same id/position-independent content as when processed alone
-                ref_fp, ref_row = single_fp(p, variant)
+                ref_fp, ref_row, ref_hist = single_fp(p, variant)
                 if fp(s) != ref_fp:
                     res.violation('samples:healthy-row-differs', '%s: healthy row %s differs from its single-row run: %s' % (what, r['id'], diff(fp(s), ref_fp)), one)
                     ok = False
@@ -504,6 +520,12 @@ def run_case(c):
                 badcols = [k for k in ref_row if k not in ('Strain', 'Inducer (uM)') and not (row_now.get(k) == ref_row[k] or (row_now.get(k) != row_now.get(k) and ref_row[k] != ref_row[k]))]
                 if badcols:
                     res.violation('samples:healthy-row-stats-differ', '%s: statistics of healthy row %s differ from its single-row run in %s' % (what, r['id'], badcols[:4]), one)
+                    ok = False
+                    continue
+                hr = hist_rows(hist, r['id'])
+                if hr != ref_hist:
+                    res.violation('samples:healthy-row-histogram-differs', '%s: the histogram rows of healthy row %s differ from its single-row run (%s values per row, alone %s)' % (
+                        what, r['id'], [len(v) for _, v in hr], [len(v) for _, v in ref_hist]), one)
                     ok = False
         # the same table processed without the optional beads table (the acquisition-settings comparison is then not made): every
         # other fault is still the row's error, every healthy row still equals its single-row result
